@@ -544,6 +544,7 @@ var c08StrPieces = []string{
 	`\000`, `\101`, `\377`, `\400`, `\777`, `\177`, `\x00`, `\x41`, `\x7f`, `\x80`, `\xff`, `\xFf`, `\u0000`, `A`,
 	`é`, `\ud83d`, `\ude00`, `\udfff`, `￾`, `￿`, ` `, `ࠀ`, `߿`, `\U0001F600`, `\U00010000`, `\U0010FFFF`,
 	`\U00110000`, `\U80000000`, `\UFFFFFFFF`, `\U0000D800`, `\U7FFFFFFF`, `\U00000041`, "é", "😀", "\xff", "\xc3", "\xe2\x98", "\n", "\x00", "\t",
+	`\ud83d\ude00`, `\ud83d\ud83d`, `\ude00\ud83d`, `\ud83d\u0041`, `\udbff\udfff`, `\ud800\udc00`, `\ud83d\ude0`, `\ud83d\uzz00`, `\ud83d\U0000de00`, `\ud83d\n`,
 	`\x1`, `\xg1`, `\x1g`, `\u12`, `\u123g`, `\ug123`, `\U1234567`, `\U0001F60g`, `\8`, `\9`, `\q`, `\`, `\7`, `\12`, `\18a`, `\81a`, `\/`, `\'`, `"`, `\x`, `\u`, `\U`, `\1`,
 }
 
@@ -678,7 +679,7 @@ func runC08(c *Ctx) {
 	}
 	// truncation at every byte of the small seeds
 	for _, s := range allSeeds {
-		if len(s.src) > 1200 && !c.Thorough {
+		if (len(s.src) > 1200 && !c.Thorough) || len(s.src) > 6000 {
 			continue
 		}
 		for i := 0; i < len(s.src); i++ {
@@ -704,7 +705,7 @@ func runC08(c *Ctx) {
 	}
 	deadline := time.Now().Add(12 * time.Second)
 	if c.Thorough {
-		deadline = time.Now().Add(6 * time.Minute)
+		deadline = time.Now().Add(200 * time.Second)
 	}
 	done := 0
 	for i := 0; i < n && time.Now().Before(deadline); i++ {
@@ -1141,7 +1142,7 @@ func c08Scaling(c *Ctx) {
 	long := []int{20000, 200000}
 	decl := []int{500, 2000, 8000}
 	if c.Thorough {
-		deep = []int{1000, 10000, 100000, 1000000}
+		deep = []int{1000, 10000, 100000, 300000}
 		long = []int{20000, 200000, 2000000}
 		decl = []int{500, 2000, 8000, 32000}
 	}
